@@ -21,7 +21,7 @@ Inductive io :=
      (pf : bool)                      (* prefilterFunc(pattern)(w); true when the prefilter is nil *)
      (capturing : bool)
      (off : option (list bytes))      (* prefilter off: None = no match, Some fields = TX.0.. as captured *)
-     (on_res : bool) (on_caps : list bytes)   (* prefilter on *)
+     (on_res : bool) (on_caps : option (list bytes))   (* prefilter on; None = the same fields as off *)
      (sem : bool).                    (* also compare the regex semantics with the engine's verdict *)
 
 Inductive golits := GNone | GAll (l : list bytes) | GAny (l : list bytes) | GComb (a y : list bytes).
@@ -64,6 +64,12 @@ Fixpoint trim_empty (l : list bytes) : list bytes :=
 
 Definition is_some {A} (o : option A) : bool := match o with Some _ => true | None => false end.
 
+Definition on_fields (off on_caps : option (list bytes)) : list bytes :=
+  match on_caps with
+  | Some l => l
+  | None => match off with Some l => l | None => [] end
+  end.
+
 Definition io_ok (r : re) (pfo : option pfn) (c : rx_compiled) (x : io) : bool :=
   match x with
   | IO w pf capturing off on_res on_caps sem =>
@@ -71,7 +77,7 @@ Definition io_ok (r : re) (pfo : option pfn) (c : rx_compiled) (x : io) : bool :
       let engine := fun _ : bytes => option_map (map (@Some bytes)) off in
       let '(m_res, m_caps) := evaluate engine c capturing w in
       Bool.eqb model_pf pf
-      && Bool.eqb m_res on_res && lb_eqb (trim_empty m_caps) on_caps
+      && Bool.eqb m_res on_res && lb_eqb (trim_empty m_caps) (on_fields off on_caps)
       && (if sem then Bool.eqb (re_matchb r w) (is_some off) else true)
   end.
 
@@ -84,7 +90,7 @@ Definition ok (c : case) : bool :=
       && Nat.eqb (min_len r) minlen
       && Bool.eqb (negb (is_some pfo)) pf_nil
       && lits_eqb (extract_literals r (has_flag r)) gl
-      && exact_eqb (extract_exact r0) exact
+      && exact_eqb (extract_exact r0) exact && exact_rel r0 r
       && forallb (io_ok r pfo rc) ios
   end.
 
@@ -101,7 +107,7 @@ Definition io_diag (r : re) (pfo : option pfn) (c : rx_compiled) (k : nat) (x : 
       let '(m_res, m_caps) := evaluate engine c capturing w in
       (if Bool.eqb model_pf pf then [] else [100 * (k + 1) + 1])
       ++ (if Bool.eqb m_res on_res then [] else [100 * (k + 1) + 2])
-      ++ (if lb_eqb (trim_empty m_caps) on_caps then [] else [100 * (k + 1) + 3])
+      ++ (if lb_eqb (trim_empty m_caps) (on_fields off on_caps) then [] else [100 * (k + 1) + 3])
       ++ (if sem then if Bool.eqb (re_matchb r w) (is_some off) then [] else [100 * (k + 1) + 4] else [])
   end%nat.
 
@@ -117,6 +123,6 @@ Definition diag (c : case) : list nat :=
       ++ (if Nat.eqb (min_len r) minlen then [] else [2])
       ++ (if Bool.eqb (negb (is_some pfo)) pf_nil then [] else [3])
       ++ (if lits_eqb (extract_literals r (has_flag r)) gl then [] else [4])
-      ++ (if exact_eqb (extract_exact r0) exact then [] else [5])
+      ++ (if exact_eqb (extract_exact r0) exact && exact_rel r0 r then [] else [5])
       ++ ios_diag r pfo rc 0 ios)%nat
   end.
